@@ -26,12 +26,13 @@ LINE = 7
 class Layout:
     """columns: list of 'in' / 'exp' (header columns); sig_order: header column -> signal index."""
 
-    def __init__(self, name, columns, sig_of_col, widths=None, note=""):
+    def __init__(self, name, columns, sig_of_col, widths=None, note="", hidden_exp=0):
         self.name = name
         self.columns = columns
         self.sig_of_col = sig_of_col
         self.n = len(columns)
         self.note = note
+        self.hidden_exp = hidden_exp      # output signals of the device that the header does not name (EntryIndex::Default)
         # signal-list order: inputs and outputs by signal index
         self.signals = sorted(range(self.n), key=lambda c: sig_of_col[c])
         self.input_cols = [c for c in self.signals if columns[c] == "in"]       # in signal order
@@ -41,6 +42,7 @@ class Layout:
 LAYOUTS_QUICK = [
     Layout("in in exp", ["in", "in", "exp"], [0, 1, 2]),
     Layout("header order differs from signal order", ["in", "in", "exp"], [1, 0, 2]),
+    Layout("exp in (output first in the header, input first in the signal list)", ["exp", "in"], [1, 0]),
 ]
 LAYOUTS_THOROUGH = [
     Layout("exp in in", ["exp", "in", "in"], [2, 0, 1]),
@@ -77,6 +79,28 @@ def make_harness(K):
                                               (2, "&mut eval_context::EvalContext")], body, locs)
 
 
+def make_harness_new(K, prev_field=None):
+    """Like make_harness, but the test-data object is built by the crate's own DataRowIteratorTestData::new from a
+    TestCase, so that whatever that constructor derives (caches, masks, ...) is the real thing and not left arbitrary.
+    prev_field: index of the `prev` field - it is then overwritten with parameter _5 (an arbitrary previous row)."""
+    body = ["bb0: _3 = DataRowIteratorTestData::<'_>::new(copy _1) -> [return: bb1, unwind continue]"]
+    for k in range(K):
+        pre = "_4 = &mut _3;; " if k == 0 else ""
+        if k == 0 and prev_field is not None:
+            pre = "(_3.%d: std::option::Option<std::vec::Vec<stmt::DataEntry>>) = move _5;; " % prev_field + pre
+        body.append("bb%d: %s_%d = DataRowIteratorTestData::<'_>::get_row(copy _4, copy _2) -> [return: bb%d, unwind continue]"
+                    % (k + 1, pre, 10 + k, k + 2))
+    body.append("bb%d: return" % (K + 1))
+    locs = {10 + k: "std::result::Result<std::option::Option<data_row_iterator::EvaluatedRow<'_>>, errors::ExprError>"
+            for k in range(K)}
+    locs[3] = "data_row_iterator::DataRowIteratorTestData<'_>"
+    locs[4] = "&mut data_row_iterator::DataRowIteratorTestData<'_>"
+    params = [(1, "&TestCase"), (2, "&mut eval_context::EvalContext")]
+    if prev_field is not None:
+        params.append((5, "std::option::Option<std::vec::Vec<stmt::DataEntry>>"))
+    return build.harness("get_row_sequence", params, body, locs)
+
+
 def serve_one_row(ctx):
     """Model of StmtIterator::next_with_context for the harness: the prepared row once, then end of program."""
     st = ctx.st
@@ -92,7 +116,7 @@ def serve_one_row(ctx):
     return ctx.ret(r)
 
 
-def run_layout(O, layout, K, in_kinds=("Number", "X", "Z", "C"), exp_kinds=("Number", "X", "Z"), rep=None):
+def run_layout(O, layout, K, in_kinds=("Number", "X", "Z", "C"), exp_kinds=("Number", "X", "Z"), rep=None, arbitrary_prev=False):
     m = O.mir
     F = m.fidx
     sys.setrecursionlimit(300000)
@@ -104,9 +128,11 @@ def run_layout(O, layout, K, in_kinds=("Number", "X", "Z", "C"), exp_kinds=("Num
     eng.auto_inline_max_blocks = 400
     eng.auto_inline_depth = 12
     eng.models["StmtIterator::next_with_context"] = serve_one_row
-    fn = make_harness(K)
+    fn = make_harness_new(K, F("DataRowIteratorTestData", "prev") if arbitrary_prev else None)
+    eng.models["StmtIterator::new"] = lambda ctx: ctx.ret(Node(fresh_root("stmtiter"), ty=ctx.dest_ty))
     n = layout.n
     nsig = n
+    nhid = getattr(layout, "hidden_exp", 0)
     handles = {}
 
     def setup(eng_, st, fr):
@@ -119,18 +145,28 @@ def run_layout(O, layout, K, in_kinds=("Number", "X", "Z", "C"), exp_kinds=("Num
             else:
                 typ = build.enum_val(eng_, "SignalType", "Output", [])
             sigs.append(build.struct([Node("name%d" % s, ty="String"), Node("bits%d" % s, ty="usize"), typ], "Signal"))
-        eng_.field(me, F("DataRowIteratorTestData", "signals")).target = build.slice_of_items(sigs, "[Signal]")
+        for h in range(nhid):
+            sigs.append(build.struct([Node("name%d" % (nsig + h), ty="String"), Node("bits%d" % (nsig + h), ty="usize"),
+                                      build.enum_val(eng_, "SignalType", "Output", [])], "Signal"))
         ii = [build.enum_val(eng_, "EntryIndex", "Entry", [build.usize(c), build.usize(layout.sig_of_col[c])])
               for c in layout.input_cols]
         ei = [build.enum_val(eng_, "EntryIndex", "Entry", [build.usize(c), build.usize(layout.sig_of_col[c])])
               for c in layout.exp_cols]
-        eng_.field(me, F("DataRowIteratorTestData", "input_indices")).target = build.slice_of_items(ii, "[EntryIndex]")
-        eng_.field(me, F("DataRowIteratorTestData", "expected_indices")).target = build.slice_of_items(ei, "[EntryIndex]")
-        assign_node(eng_.field(me, F("DataRowIteratorTestData", "cache")), build.vec_of(eng_, [], "Vec<stmt::DataEntries>"))
-        none = Node(fresh_root("e"), ty="Option")
-        none.tag = bv64(0)
-        none.variants = {}
-        assign_node(eng_.field(me, F("DataRowIteratorTestData", "prev")), none)
+        ei += [build.enum_val(eng_, "EntryIndex", "Default", [build.usize(nsig + h)]) for h in range(nhid)]
+        # `me` is the TestCase; the test-data object is built from it by the crate's own constructor (harness bb0)
+        assign_node(eng_.field(me, F("TestCase", "signals")), build.vec_of(eng_, sigs, "Vec<Signal>"))
+        assign_node(eng_.field(me, F("TestCase", "input_indices")), build.vec_of(eng_, ii, "Vec<EntryIndex>"))
+        assign_node(eng_.field(me, F("TestCase", "expected_indices")), build.vec_of(eng_, ei, "Vec<EntryIndex>"))
+        if arbitrary_prev:
+            # the row executed before: any evaluated row of the same width (kinds and values symbolic)
+            pes = [build.sym_enum("pe%d" % c, "stmt::DataEntry") for c in range(n)]
+            for c, e in enumerate(pes):
+                t = eng_.tag_of(e, st)
+                kinds = (in_kinds if layout.columns[c] == "in" else exp_kinds)
+                # expected columns of the previous row may hold X (the mid-clock rows put X there); inputs hold numbers
+                pk = ("Number", "X") if layout.columns[c] != "in" else ("Number",)
+                st.pc.append(z3.Or([t == bv64(m.vidx("DataEntry", k)) for k in pk]))
+            fr.locals[5] = build.enum_val(eng_, "Option", "Some", [build.vec_of(eng_, pes, "Vec<stmt::DataEntry>")])
         entries = [build.sym_enum("e%d" % c, "stmt::DataEntry") for c in range(n)]
         for c, e in enumerate(entries):
             t = eng_.tag_of(e, st)
@@ -228,7 +264,10 @@ def run_layout(O, layout, K, in_kinds=("Number", "X", "Z", "C"), exp_kinds=("Num
                                                  sigref.target.fields[0].root == "name%d" % layout.sig_of_col[c]):
                     claims.append(z3.BoolVal(False))
             exps = vec_slice(eng, eng.field(row, F("EvaluatedRow", "expected")))
-            claims.append(eng.length(exps) == bv64(len(layout.exp_cols)))
+            claims.append(eng.length(exps) == bv64(len(layout.exp_cols) + nhid))
+            for h in range(nhid):
+                ent = eng.elem(exps, bv64(len(layout.exp_cols) + h))
+                claims.append(eng.tag_of(eng.field(ent, F("ExpectedEntry", "value")), None) == bv64(m.vidx("ExpectedValue", "X")))
             for j, c in enumerate(layout.exp_cols):
                 ent = eng.elem(exps, bv64(j))
                 v = eng.field(ent, F("ExpectedEntry", "value"))
@@ -268,6 +307,9 @@ def expansion_scenario(layout, kinds, values, widths, repeat=1):
             sigs.append(("in", "S%d" % s, w, 0))
         else:
             sigs.append(("out", "S%d" % s, w))
+    nhid = getattr(layout, "hidden_exp", 0)
+    for h in range(nhid):
+        sigs.append(("out", "H%d" % h, 8))
     ents = []
     for c in range(n):
         ents.append({"N": "(%s)" % lit(values[c]), "X": "X", "Z": "Z", "C": "C"}[kinds[c]])
@@ -290,7 +332,7 @@ def expansion_scenario(layout, kinds, values, widths, repeat=1):
             ins.append({"N": masked(c), "Z": "Z", "X": str(assign.get(c, 0)), "C": str(clk)}[kinds[c]])
         row_inputs.append(ins)
         if checked:
-            row_expected.append([{"N": masked(c), "Z": "Z", "X": "X"}[kinds[c]] for c in layout.exp_cols])
+            row_expected.append([{"N": masked(c), "Z": "Z", "X": "X"}[kinds[c]] for c in layout.exp_cols] + ["X"] * nhid)
         else:
             row_expected.append([])
     outs = [s for s in sigs if s[0] == "out"]
@@ -320,5 +362,19 @@ def _register(lay, K, tier):
 
 for _lay in LAYOUTS_QUICK:
     _register(_lay, 13, "quick")
+
+
+@obligation("C05/expansion[after an arbitrary previous row]", profiles=("dev",),
+            desc=DESC + "in in exp, executed after an arbitrary previous row (what the iterator remembers of the row before - "
+                        "its kinds and values are symbolic - must not change the expansion)")
+def _after_prev(O):
+    run_layout(O, Layout("in exp after a previous row", ["in", "in", "exp"], [0, 1, 2]), 7, in_kinds=("Number", "C"),
+               exp_kinds=("Number", "X"), arbitrary_prev=True)
+
+
+@obligation("C05/expansion[three inputs, X and numbers]", profiles=("dev",),
+            desc=DESC + "three input columns holding X or a number (up to eight assignments from one row)")
+def _three_x(O):
+    run_layout(O, Layout("three inputs, X and numbers", ["in", "in", "in"], [2, 0, 1]), 10, in_kinds=("Number", "X"))
 for _lay in LAYOUTS_THOROUGH:
     _register(_lay, 25, "thorough")
